@@ -39,7 +39,6 @@ PROPERTIES = {
             "the destination stream has default formatting state when format() is called (no width, not "
             "left-adjusted, fill ' ')",
             "format strings and separators contain no NUL byte (they travel as C strings); localtime() succeeds",
-            "attribute scopes are destroyed in reverse order of construction (stack objects)",
         ],
     }
 }
@@ -193,8 +192,12 @@ def gen_attr_ops(rng, depth, k):
         if o < 0.35:
             out.append("scope push %s %s" % (hx(rng.choice(NAMES)), hx(rng.choice(VALUES))))
             depth[0] += 1
-        elif o < 0.6 and depth[0] > 0:
+        elif o < 0.55 and depth[0] > 0:
             out.append("scope pop")
+            depth[0] -= 1
+        elif o < 0.6 and depth[0] > 0:
+            # a scope object that does not die in reverse order of construction (heap, other thread)
+            out.append("scope drop %d" % rng.randrange(depth[0]))
             depth[0] -= 1
         elif o < 0.8:
             out.append("attr global %s %s" % (hx(rng.choice(NAMES)), hx(rng.choice(VALUES))))
@@ -260,6 +263,79 @@ def scope_case(rng, cid):
     return Case(cid, lines)
 
 
+def scope_mix_case(rng, cid):
+    """scopes with permanent addAttribute / removeAttribute calls of the *same* names inside them and scopes
+    ended out of order, the lookup result observed after every event (Logging::getAttribute and a rendering):
+    a scope end must take away the scope's own entry and nothing else"""
+    names = rng.sample(NAMES, 2)
+    lines = ["def begin " + hx("|")] + ["def attr " + hx(n) for n in names] + ["def end"]
+    lines.append("msg text=%s attrs=-" % hx("t"))
+    depth = 0
+    for _ in range(rng.randint(3, 12)):
+        n = names[0] if rng.random() < 0.75 else names[1]
+        o = rng.random()
+        if o < 0.3:
+            lines.append("scope push %s %s" % (hx(n), hx(rng.choice(VALUES))))
+            depth += 1
+        elif o < 0.5 and depth:
+            lines.append("scope pop")
+            depth -= 1
+        elif o < 0.6 and depth:
+            lines.append("scope drop %d" % rng.randrange(depth))
+            depth -= 1
+        elif o < 0.85:
+            lines.append("attr global %s %s" % (hx(n), hx(rng.choice(VALUES))))
+        else:
+            lines.append("attr remove " + hx(n))
+        lines.append("attr get " + hx(names[0]))
+        if rng.random() < 0.5:
+            lines.append("format")
+    while depth:
+        lines.append("scope pop")
+        depth -= 1
+        lines.append("attr get " + hx(names[0]))
+    lines.append("format")
+    return Case(cid, lines)
+
+
+def scope_exhaustive_cases():
+    """every history of <= 5 events over one name: push, pop, drop of the oldest live scope, permanent add,
+    remove by name; the lookup is observed after every event"""
+    evs = ["P", "p", "d", "G", "R"]
+    cases = []
+    n = hx("a")
+    k = 0
+    for length in range(1, 6):
+        for combo in itertools.product(evs, repeat=length):
+            depth, lines, ok, val = 0, [], True, 0
+            for e in combo:
+                val += 1
+                if e == "P":
+                    lines.append("scope push %s %s" % (n, hx("s%d" % val)))
+                    depth += 1
+                elif e == "G":
+                    lines.append("attr global %s %s" % (n, hx("g%d" % val)))
+                elif e == "R":
+                    lines.append("attr remove " + n)
+                elif e == "p":
+                    if not depth:
+                        ok = False
+                        break
+                    lines.append("scope pop")
+                    depth -= 1
+                else:
+                    if depth < 2:      # drop of the oldest of at least two (otherwise it is a pop)
+                        ok = False
+                        break
+                    lines.append("scope drop %d" % (depth - 1))
+                    depth -= 1
+                lines.append("attr get " + n)
+            if ok:
+                k += 1
+                cases.append(Case("sx%d" % k, lines))
+    return cases
+
+
 EX_FIELDS = {
     "level": "def field level", "text": "def field text", "const": "def const " + hx("ab"),
     "attr": "def attr " + hx("a"), "date": "def field date", "line": "def field line",
@@ -301,8 +377,11 @@ def generate(prop, tier, seed, scale=1):
     n = (6000 if tier == "quick" else 150000) * scale
     cases = []
     for i in range(n):
-        cases.append(scope_case(rng, "s%d" % i) if i % 8 == 7 else random_case(rng, "g%d" % i))
+        cases.append(scope_case(rng, "s%d" % i) if i % 8 == 7 else
+                     scope_mix_case(rng, "m%d" % i) if i % 8 == 3 else random_case(rng, "g%d" % i))
     yield "generated", cases
+    yield "exhaustive scope histories <=5 events {push, pop, drop oldest, addAttribute, removeAttribute} on one name", \
+        scope_exhaustive_cases()
     if tier == "quick":
         yield "exhaustive <=3 fields {level,text,const,attr} x width {0,7} x {right,left} x sep {none,'|'}", \
             exhaustive_cases(["level", "text", "const", "attr"], [0, 7], 3)
